@@ -14,6 +14,7 @@
 package conn
 
 import (
+	"encoding/binary"
 	"errors"
 	"fmt"
 	"net"
@@ -45,14 +46,31 @@ func (rb RemoteBitfields) marshalBinary() (map[string][]byte, error) {
 	return rbBytes, nil
 }
 
+// unmarshalBitfield decodes a bitfield received from a remote peer. The encoding
+// starts with the number of bits, which bitset allocates before reading them, so
+// encodings which declare more bits than they carry are rejected first.
+func unmarshalBitfield(b []byte) (*bitset.BitSet, error) {
+	if len(b) < 8 {
+		return nil, errors.New("bitfield too short")
+	}
+	if n := binary.BigEndian.Uint64(b); n > 8*uint64(len(b)-8) {
+		return nil, fmt.Errorf("bitfield declares %d bits but has %d bytes", n, len(b)-8)
+	}
+	bitfield := bitset.New(0)
+	if err := bitfield.UnmarshalBinary(b); err != nil {
+		return nil, err
+	}
+	return bitfield, nil
+}
+
 func (rb RemoteBitfields) unmarshalBinary(rbBytes map[string][]byte) error {
 	for peerIDStr, bitfieldBytes := range rbBytes {
 		peerID, err := core.NewPeerID(peerIDStr)
 		if err != nil {
 			return fmt.Errorf("peer id: %s", err)
 		}
-		bitfield := bitset.New(0)
-		if err := bitfield.UnmarshalBinary(bitfieldBytes); err != nil {
+		bitfield, err := unmarshalBitfield(bitfieldBytes)
+		if err != nil {
 			return err
 		}
 		rb[peerID] = bitfield
@@ -114,8 +132,8 @@ func handshakeFromP2PMessage(m *p2p.Message) (*handshake, error) {
 	if err != nil {
 		return nil, fmt.Errorf("name: %s", err)
 	}
-	bitfield := bitset.New(0)
-	if err := bitfield.UnmarshalBinary(bitfieldMsg.BitfieldBytes); err != nil {
+	bitfield, err := unmarshalBitfield(bitfieldMsg.BitfieldBytes)
+	if err != nil {
 		return nil, err
 	}
 	remoteBitfields := make(RemoteBitfields)
